@@ -537,8 +537,8 @@ impl Sys {
         let (count, rq) = match d {
             Demand::None => return,
             Demand::Sn(k) => (k, ResourceRequest::default()),
-            Demand::Mn(n) => (
-                1,
+            Demand::Mn(n) | Demand::Mns(_, n) => (
+                if let Demand::Mns(k, _) = d { k } else { 1 },
                 ResourceRequest {
                     n_nodes: n,
                     resources: Default::default(),
